@@ -226,6 +226,9 @@ Shapes(type) ==
       [] type = "reject" -> RejectShapes
       [] type = "filterload" -> FilterLoadShapes
       [] type = "addrv2" -> AddrV2Shapes
+      [] type = "txout" ->
+            LET ls == LenClasses(MaxScriptLen)
+            IN  [i \in 1..Len(ls) |-> Sh("pk-" \o ToString(ls[i]), Out(ls[i]))] \o <<Sh("pk-25", Out(25)), Sh("pk-513", Out(513))>>
       [] type = "tx" -> TxShapes
       [] type = "block" -> BlockShapes
       [] OTHER -> <<Sh("plain", <<>>)>>
@@ -301,6 +304,7 @@ HostileValues(t, lim, probe) ==
 ProbeShape(type) ==
     CASE type = "tx" -> "segwit-mixed"
       [] type = "block" -> "mixed"
+      [] type = "txout" -> "pk-25"
       [] type = "version" -> "full-relay-1"
       [] type = "reject" -> "block"
       [] type = "filterload" -> "typical"
@@ -445,6 +449,7 @@ InDomain(c) ==
     /\ CASE c.type = "tx" -> TxInDomain(c.m, c.enc)
          [] c.type = "block" -> /\ RunsLen(c.m.txs) <= MaxTxPerBlock
                                 /\ \A r \in 1..Len(c.m.txs) : TxInDomain(c.m.txs[r].e, c.enc)
+         [] c.type = "txout" -> c.m.pk <= MaxScriptLen
          [] c.type = "cfcheckpt" -> RunsLen(c.m["fh"]) <= MaxCFCheckptHeaders
          [] c.type = "reject" -> Len(c.m.cmd) <= MaxMessagePayload /\ c.m.reason <= MaxMessagePayload
          [] c.type = "addrv2" -> \A r \in 1..Len(c.m.addrs) : A2Encodable(c.m.addrs[r].e)
@@ -498,7 +503,7 @@ Expect(c) ==
 -----------------------------------------------------------------------------
 (* state machine: root -> one group per (type, pver) -> the cases *)
 
-SerTypes == <<"tx", "block", "header">>
+SerTypes == <<"tx", "block", "header", "txout">>
 
 RootExpect ==
     [ huge |-> Huge, allocfactor |-> AllocFactor, maxmessagepayload |-> MaxMessagePayload,
